@@ -60,10 +60,11 @@ Definition no_expired (s : state) (now : Z) : Prop :=
   forall id fact, alookup id (st_facts s) = Some fact -> fact_expired fact now = false.
 
 Definition as_linear (s : state) : state :=
-  mkState Linear (st_facts s) (st_tindex s) (st_pindex s) (st_store s) (st_hooks s) (st_calls s) (st_fail s) (st_amb s).
+  mkState Linear (st_facts s) (st_tindex s) (st_pindex s) (st_store s) (st_hooks s) (st_calls s) (st_fail s) (st_amb s) (st_pending s).
 
 (** (3) search exactness: in a state satisfying the invariant in which nothing
-    has expired, the indexed search returns exactly what the index-free
+    has expired (and no purge is pending: true between any two operations,
+    see [pending_empty_reachable_statement]), the indexed search returns exactly what the index-free
     (linear) search returns over the same fact map, provided the pattern has
     at least one term, matching raises no error on the stored facts (true on
     the matcher's fragment), and every fact the pattern matches contains the
@@ -71,6 +72,7 @@ Definition as_linear (s : state) : state :=
 Definition search_exact_statement : Prop :=
   forall s pattern now,
     st_kind s = Indexed -> st_wf s -> Idx_sup s -> no_expired s now ->
+    st_pending s = [] ->
     extract_terms pattern <> [] ->
     (forall id fact, alookup id (st_facts s) = Some fact ->
         exists bss, core_match pattern fact [] = Ok bss) ->
@@ -85,12 +87,17 @@ Definition search_exact_statement : Prop :=
       | _, _ => False
       end.
 
+(** No purge is left pending by an operation: the list of noted ids is empty
+    in every reachable state (whatever the storage does). *)
+Definition pending_empty_reachable_statement : Prop :=
+  forall k hooks fail ops, st_pending (reachable k hooks fail ops) = [].
+
 (** (4) get returns the value last written: after a successful add under id,
     get returns exactly the prepared fact, until a later add/rem of that id,
     a cascade or an expiry removes it; stated as: get agrees with the fact map *)
 Definition get_exact_statement : Prop :=
   forall s id now,
-    st_wf s ->
+    st_wf s -> st_pending s = [] ->
     match alookup id (st_facts s) with
     | Some fact => fact_expired fact now = false -> st_get s id now = (s, Ok fact)
     | None => st_get s id now = (s, Err "notfound")
